@@ -13,6 +13,6 @@ CONSTANTS
   MaxRefused = 1
   ProbeSlot = 9
   DevFirstWins = FALSE
-INVARIANTS TypeOK LookupAgree ChangeVisibleBoth ChildIndicesExact Emit
-PROPERTIES RefuseIdempotent
+INVARIANTS TypeOK LookupAgree ChangeVisibleBoth ChildIndicesExact NodeTypeExact Emit
+PROPERTIES RefuseIdempotent NodeTypeMonotone
 CHECK_DEADLOCK FALSE
